@@ -266,19 +266,43 @@ def _is_cache_decorator(d: str) -> bool:
     return head in ("lru_cache", "cache")
 
 
-def _pure_test(t) -> bool:
-    """A test whose value cannot change along a path: built from parameters, constants and bound values
-    with identity / equality / order comparisons and isinstance - no attribute or item reads (objects are
-    mutated in place), no membership in containers, no calls."""
+_CONTAINERISH = ("list", "dict", "set", "tuple", "List", "Dict", "Set", "Tuple", "Iterable", "Iterator", "Sequence", "Mapping", "Collection", "Container", "Any", "object", "Converter", "Record", "Graph", "DataFrame")
+
+
+def _scalar_param(fn, name) -> bool:
+    """A parameter annotated with an immutable scalar type (bool / str / int / float / None unions of those)."""
+    prm = fn.param(name) if fn is not None else None
+    if prm is None or prm.annotation is None:
+        return False
+    ann = ast.unparse(prm.annotation)
+    if any(w in ann for w in _CONTAINERISH):
+        return False
+    return all(part.strip() in ("bool", "str", "int", "float", "None", "bytes") or part.strip().startswith("Literal[") for part in ann.replace("Optional[", "").replace("]", "").split("|")) or ann.startswith("Literal[")
+
+
+def _pure_test(t, fn=None) -> bool:
+    """A test whose value cannot change along a path: identity comparisons and isinstance of parameters,
+    constants and bound values; equality / order / truthiness only of immutable scalars (constants and
+    parameters annotated bool / str / int / float) - a container may be mutated between two tests of it.
+    No attribute or item reads (objects are mutated in place), no membership in containers, no calls."""
     o = op(t)
-    if o in ("param", "const", "bv", "lv", "cls", "builtin", "ext", "func", "gconst"):
+
+    def atom(x):
+        return op(x) in ("param", "const", "bv", "lv", "cls", "builtin", "ext", "func", "gconst") or (op(x) == "tuple" and all(atom(y) for y in x[1]))
+
+    def scalar(x):
+        return op(x) == "const" or (op(x) == "param" and _scalar_param(fn, x[1]))
+
+    if o == "const":
         return True
+    if o == "param":
+        return _scalar_param(fn, t[1])
     if o == "cmp":
-        return t[1] in ("is", "==", "<", "<=", ">", ">=") and _pure_test(t[2]) and _pure_test(t[3])
+        if t[1] == "is":
+            return atom(t[2]) and atom(t[3])
+        return t[1] in ("==", "<", "<=", ">", ">=") and scalar(t[2]) and scalar(t[3])
     if o == "call" and t[1] == ("builtin", "isinstance") and len(t[2]) == 2 and not t[3]:
-        return _pure_test(t[2][0]) and all(_pure_test(x) for x in (t[2][1][1] if op(t[2][1]) == "tuple" else (t[2][1],)))
-    if o == "tuple":
-        return all(_pure_test(x) for x in t[1])
+        return atom(t[2][0]) and atom(t[2][1])
     return False
 
 
@@ -1217,7 +1241,7 @@ class _Builder:
         if op(test) == "cmp" and test[1] in ("is", "==") and any(is_const(x, None) for x in (test[2], test[3])) and any(op(x) in ("tuple", "list", "dict", "set", "concat", "new", "comp") for x in (test[2], test[3])):
             # a freshly built display / string / container is not None
             return then_fn([p]) if not pol else else_fn([p])
-        if _pure_test(test):
+        if _pure_test(test, self.fn):
             # the same value-level test was already decided on this path: only the consistent arm is feasible
             for ev in p.events:
                 if ev.kind == "guard" and ev.a == test:
